@@ -127,17 +127,18 @@ var specs = map[string]Spec{
 		MaxSamples:  1,
 	},
 	"C06": {
+		ExtraEngine: "wire", ExtraRun: "^TestForwardWire$", ExtraRace: true, ExtraShards: 5,
 		Engine: "fwdsim", Run: "^TestForward$", Race: true,
 		QuickShards: 16, ThoroughShards: 16, QuickWatchdog: 8 * time.Minute, ThoroughWatchdog: 60 * time.Minute,
 		MaxProcs: []int{16, 4, 2, 1},
 		Level:     "fault_enumeration",
 		LevelText: "The real pass-through handler (StreamForwarder, default and LCM modes) runs between an in-memory initiator and an in-memory source in virtual time; for every position of six two-direction scripts of 12 messages and every way either side can end (clean EOF, error status, half-close, cancel, disconnect, failing Send in either direction, unknown message kind from either side) under four progress skews, the oracle checks prefix-faithful relay in both directions, completeness before clean endings, that the handler returns within a bound on the virtual clock, that the source side was half-closed or cancelled, and that no goroutine of the proxy is left (census of stacks).",
-		LevelNote: "Trusted: the in-memory gRPC stream model (status on handler return, context cancellation on return, io.EOF on Send to a finished stream, bounded window). Proxy shutdown (lifetime) is not observed by the forwarder itself and is exercised only through the assembled servers in the wire engine.",
+		LevelNote: "Trusted: the in-memory gRPC stream model (status on handler return, context cancellation on return, io.EOF on Send to a finished stream, bounded window). Proxy shutdown (lifetime) is not observed by the forwarder itself: an extra pass of the wire engine drives a pass-through stream through the assembled ClusterConnection over real gRPC and ends it five ways (source EOF, source error, initiator cancel, initiator half-close, proxy shutdown), checking faithful relay and that both real peers observe the end - which also cross-checks the in-memory stream model.",
 		Technique: "runtime monitor + fault injection: enumerated ending kinds x positions on the real forwarder in virtual time; relay-prefix and termination oracles; goroutine census; race detector",
 		DesignRef: "DESIGN.md §4 C06",
 		Rule:      "cases = mode x script x ending kind x position x progress skew (quick: all positions for the lockstep skew and every second one for the others; thorough: all, plus 20k random scripts); distinct = distinct (mode,script,ending,position,skew) tuples, all non-trivial (each relays or ends a stream)",
 		Assumptions: []string{"in-memory stream pair with gRPC semantics; every message deep-copied at the boundary", "virtual time (testing/synctest); consumers may be slow but never stop reading for ever"},
-		QuickFloors: map[string]int64{"positions": 1500, "handler_returned": 1000},
+		QuickFloors: map[string]int64{"positions": 1500, "handler_returned": 1000, "wire_endings": 5},
 		MaxSamples:  2,
 	},
 	"C07": {
